@@ -85,6 +85,57 @@ def angle(rng):
 
 
 
+def _translate_projection(src):
+    """The weight of one mesh point under the default (equirectangular, generate.PROJECTION == 1) projection: the
+    APPLY_PROJECTION() macro of kernel_iq.c read as three assignments; cos(dtheta*M_PI_180) is the cosine of the jitter
+    latitude (c_ dtheta)."""
+    import ast
+    import re
+    from . import ctrans
+    gsrc = open(os.path.join(common.REPO, "sasmodels", "generate.py")).read()
+    dflt = [n for n in ast.parse(gsrc).body if isinstance(n, ast.Assign) and [ast.unparse(t) for t in n.targets] == ["PROJECTION"]]
+    if len(dflt) != 1 or ast.unparse(dflt[0].value) != "1" or 'source.append("#define PROJECTION %d"%PROJECTION)' not in gsrc.replace(" % ", "%"):
+        raise ctrans.Untranslatable("generate.PROJECTION is not 1 by default")
+    text = ctrans.strip_comments(src)
+    m = re.search(r"#if\s+PROJECTION\s*==\s*1\s*\n(.*?)#elif\s+PROJECTION\s*==\s*2", text, re.S)
+    if not m:
+        raise ctrans.Untranslatable("PROJECTION == 1 block not found")
+    blk = m.group(1).replace("\\\n", " ")
+    mm = re.match(r"\s*#define\s+APPLY_PROJECTION\(\)\s+do\s*\{(.*)\}\s*while\s*\(0\)\s*$", blk, re.S)
+    if not mm:
+        raise ctrans.Untranslatable("APPLY_PROJECTION() is not a do { ... } while (0) macro")
+    stmts = [x.strip() for x in mm.group(1).split(";") if x.strip()]
+    if len(stmts) != 3 or re.sub(r"\s+", "", stmts[0]) != "dtheta=local_values.table.theta" or re.sub(r"\s+", "", stmts[1]) != "dphi=local_values.table.phi":
+        raise ctrans.Untranslatable("APPLY_PROJECTION() statements %s" % stmts)
+    lhs, _, rhs = stmts[2].partition("=")
+    if lhs.strip() != "weight":
+        raise ctrans.Untranslatable("APPLY_PROJECTION() third statement %s" % stmts[2])
+    P = ctrans.Parser(ctrans.tokenize(rhs + ";"))
+    e = P.expr()
+    if P.peek() != ("op", ";"):
+        raise ctrans.Untranslatable("trailing tokens in %s" % rhs)
+
+    def sub(x):
+        if x[0] == "call" and x[1] == "cos" and len(x[2]) == 1 and x[2][0] in (("bin", "*", ("var", "dtheta"), ("var", "M_PI_180")), ("bin", "*", ("var", "M_PI_180"), ("var", "dtheta"))):
+            return ("in", "(c_ dtheta)")
+        if x[0] == "var":
+            if x[1] == "weight0":
+                return ("in", "weight0")
+            raise ctrans.Untranslatable("variable %s in the projection weight" % x[1])
+        if x[0] == "num":
+            return x
+        if x[0] == "neg":
+            return ("neg", sub(x[1]))
+        if x[0] in ("bin", "cmp"):
+            return (x[0], x[1], sub(x[2]), sub(x[3]))
+        if x[0] == "ite":
+            return ("ite", sub(x[1]), sub(x[2]), sub(x[3]))
+        if x[0] == "call":
+            return ("call", x[1], [sub(a) for a in x[2]])
+        raise ctrans.Untranslatable("expression kind %s" % x[0])
+    return "  Definition code_projection_weight (dtheta : cs (T:=T)) (weight0 : T) : T := %s." % ctrans.coq(sub(e), {})
+
+
 def gen():
     """Regenerate Gen/C05_code.v from the text of kernel_iq.c: qac_rotation, qabc_rotation, qac_apply, qabc_apply
     translated statement by statement (harness/ctrans.py, fail-closed).  When a function leaves the translator's
@@ -125,9 +176,10 @@ def gen():
         env, ret = ctrans.execute(prog, ins, {})
         body.append("  Definition code_qabc_apply (r : qabc_rot (T:=T)) (qx qy : T) : vec3 (T:=T) :=\n    V3 %s\n       %s\n       %s." % tuple(
             ctrans.coq(env["*q%s_out" % a], {}) for a in "abc"))
+        body.append(_translate_projection(src))
     except (ctrans.Untranslatable, OSError, KeyError) as exc:
         note = "%s: %s" % (type(exc).__name__, exc)
-        body = ["  Definition code_qac_rotation (theta phi dtheta dphi : cs (T:=T)) : T * T := qac_rotation O theta phi dtheta dphi.",
+        body = ["  Definition code_projection_weight (dtheta : cs (T:=T)) (weight0 : T) : T := mul O (absv O (c_ dtheta)) weight0.","  Definition code_qac_rotation (theta phi dtheta dphi : cs (T:=T)) : T * T := qac_rotation O theta phi dtheta dphi.",
                 "  Definition code_qabc_rotation (theta phi psi dtheta dphi dpsi : cs (T:=T)) : qabc_rot (T:=T) := qabc_rotation O theta phi psi dtheta dphi dpsi.",
                 "  Definition code_qac_apply (r : T * T) (qx qy : T) : T * T :=\n    let m := qac_apply O r qx qy in ((if ltb O (zero O) (fst m) then sqrtT (fst m) else (zero O)), snd m).",
                 "  Definition code_qabc_apply (r : qabc_rot (T:=T)) (qx qy : T) : vec3 (T:=T) := qabc_apply O r qx qy."]
